@@ -1,0 +1,15 @@
+//go:build verif
+
+package bsonkit
+
+// VerifEntries returns the entries of the index tree in tree order: the key
+// tuple and the document of every entry. It is only available with the
+// "verif" build tag.
+func (i *Index) VerifEntries() (keys [][]interface{}, docs List) {
+	i.btree.Scan(func(e indexEntry) bool {
+		keys = append(keys, e.keys)
+		docs = append(docs, e.doc)
+		return true
+	})
+	return keys, docs
+}
